@@ -261,10 +261,10 @@ P("C13", "proof", "Lean 4 byte-level theorem (cut at the end of the stem) + mode
   "repeated application, with_extension = clone + set_extension and the UTF-8 copy are decided by the oracle (real std "
   "as reference) and the correspondence, not by a theorem. Model=code by differential testing incl. multi-byte "
   "characters next to every cut.",
-  theorems=["TP.C13.set_ext_bytes", "TP.C13.set_ext_cut_boundary", "TP.C13.set_ext_false", "TP.C13.set_ext_true_iff", "TP.C13.set_ext_total",
+  theorems=["TP.C13c.win_set_ext_comps_verbatim", "TP.C13.set_ext_bytes", "TP.C13.set_ext_cut_boundary", "TP.C13.set_ext_false", "TP.C13.set_ext_true_iff", "TP.C13.set_ext_total",
             "TP.C13.set_ext_tokens", "TP.C12b.unix_set_ext_comps", "TP.C12b.unix_set_ext_name_parent", "TP.C14.set_extension_valid",
             "TP.C13b.win_set_ext_comps", "TP.C13b.win_set_ext_name_parent", "TP.C13b.set_ext_tokens2", "TP.C07.setExtension_trailing_sep", "TP.C07.step_preserves"],
-  modules=["TypedPathVerif.Props.C12b", "TypedPathVerif.Props.C14", "TypedPathVerif.Props.C13b", "TypedPathVerif.Props.C07"],
+  modules=["TypedPathVerif.Props.C13c", "TypedPathVerif.Props.C12b", "TypedPathVerif.Props.C14", "TypedPathVerif.Props.C13b", "TypedPathVerif.Props.C07"],
   rule=NONTRIV + "(path, extension) pairs; non-trivial = file name followed by separators or `.`", design_ref="§5 C13")
 
 P("C14", "proof", "Lean 4 theorems (UTF-8 validity is preserved by every byte-level operation and mutation history) + UTF-8 family vs byte family transcripts (delegation) + model/code correspondence",
